@@ -398,12 +398,17 @@ namespace ST
     }
 #endif
 
+    // Values that are not code points must not be folded back into range by
+    // narrowing them to int: they render as the replacement character
+#   define _ST_CHAR_FROM_INT(value) \
+        ((static_cast<unsigned long long>(value) > 0x10FFFFULL) ? -1 : static_cast<int>(value))
+
 #   define _ST_FORMAT_INT_TYPE(int_T, uint_T) \
     inline void format_type(const ST::format_spec &format, ST::format_writer &output, \
                             int_T value) \
     { \
         if (format.digit_class == ST::digit_char) \
-            _ST_PRIVATE::format_char(format, output, static_cast<int>(value)); \
+            _ST_PRIVATE::format_char(format, output, _ST_CHAR_FROM_INT(value)); \
         else \
             _ST_PRIVATE::format_numeric_s<int_T>(format, output, value); \
     } \
@@ -412,7 +417,7 @@ namespace ST
                             uint_T value) \
     { \
         if (format.digit_class == ST::digit_char) \
-            _ST_PRIVATE::format_char(format, output, static_cast<int>(value)); \
+            _ST_PRIVATE::format_char(format, output, _ST_CHAR_FROM_INT(value)); \
         else \
             _ST_PRIVATE::format_numeric_u<uint_T>(format, output, value); \
     }
@@ -424,6 +429,7 @@ namespace ST
     _ST_FORMAT_INT_TYPE(long long, unsigned long long)
 
 #   undef _ST_FORMAT_INT_TYPE
+#   undef _ST_CHAR_FROM_INT
 
     inline void format_type(const ST::format_spec &format, ST::format_writer &output,
                             double value)
